@@ -961,8 +961,16 @@ impl<'a> G<'a> {
         }
         let f = tryfns[self.t.n(tryfns.len())].clone();
         let mut args = vec![];
-        for _ in &f.params {
-            args.push(if self.t.n(3) == 0 { E::None(T::Int) } else { E::Some(Box::new(E::Int(self.t.n(3) as i64))) });
+        for (_, pt) in &f.params {
+            args.push(match pt {
+                T::Void => E::Nil,
+                T::Opt(inner) if **inner == T::Void => {
+                    if self.t.n(3) == 0 { E::None(T::Void) } else { E::Some(Box::new(E::Nil)) }
+                }
+                _ => {
+                    if self.t.n(3) == 0 { E::None(T::Int) } else { E::Some(Box::new(E::Int(self.t.n(3) as i64))) }
+                }
+            });
         }
         let call = E::Call(f.name.clone(), args);
         match self.t.n(3) {
@@ -990,7 +998,18 @@ impl<'a> G<'a> {
         let nf = 1 + self.t.n(3);
         for i in 0..nf {
             let np = 1 + self.t.n(3);
-            let params: Vec<(String, T)> = (0..np).map(|j| (format!("o{j}"), T::Opt(Box::new(T::Int)))).collect();
+            let mut params: Vec<(String, T)> = (0..np).map(|j| (format!("o{j}"), T::Opt(Box::new(T::Int)))).collect();
+            // void corners: an option<void> that is tried for its effect only, and a parameter of type void
+            // (it occupies no slot, which the early return of `?` must account for)
+            let void_opt = self.fl.void_data && self.t.n(2) == 0;
+            if void_opt {
+                params.push(("u0".into(), T::Opt(Box::new(T::Void))));
+            }
+            if self.fl.void_data && self.t.n(3) == 0 {
+                let at = self.t.n(params.len() + 1);
+                params.insert(at, ("z0".into(), T::Void));
+                self.label("try-fn-void-param");
+            }
             let mut trace = 0i64;
             let mut tr = |g: &mut G| {
                 trace += 1;
@@ -1005,7 +1024,13 @@ impl<'a> G<'a> {
             let k = 1 + self.t.n(4);
             for _ in 0..k {
                 let nx = self.fresh("x");
-                let e = match self.t.n(7) {
+                let shape = if void_opt && self.t.n(3) == 0 { 7 } else { self.t.n(7) };
+                let e = match shape {
+                    // `u?` on an option<void> inside a block in operand position: nothing may stay on the stack
+                    7 => {
+                        self.label("try-void-payload");
+                        add(tr(self), E::Blk(Block { stmts: vec![S::Expr(E::Try(Box::new(E::Var("u0".into()))))], tail: Some(Box::new(E::Int(3))) }))
+                    }
                     // left / right operand with pending evaluated operands
                     0 => add(add(tr(self), tryp(self)), tr(self)),
                     1 => add(tr(self), add(tr(self), tryp(self))),
